@@ -400,7 +400,8 @@ func (exp *MapExp) equal(uother Exp) error {
 			"Map sizes differ: %d != %d",
 			len(exp.Value), len(other.Value))
 	}
-	for k, v := range exp.Value {
+	for _, k := range exp.sortedKeys() {
+		v := exp.Value[k]
 		if ov, ok := other.Value[k]; !ok {
 			return fmt.Errorf(
 				"Missing map key %s",
